@@ -324,6 +324,12 @@ def run_steps(spec, rnglog=False, per_step_s=20, keep_valid=False):
                               states={nm: snapshot(o) for nm, o in sub_optimizers(opt)},
                               rng=(rl.log[r0:] if rl else None),
                               rng_split=((eval_marks[-1] - r0) if (rl and len(eval_marks) > e0) else None))
+                    pl = getattr(opt, "pattern_pos_l", None)
+                    if pl is not None:
+                        st["pattern_pos_l"] = [tup(p_) for p_ in pl]
+                    ol = getattr(opt, "offspring_l", None)
+                    if ol is not None:
+                        st["offspring_l"] = [tup(p_) for p_ in ol]
                     ps = getattr(opt, "pop_sorted", None)
                     subs_ = list(getattr(opt, "optimizers", None) or [])
                     if ps is not None and subs_:
